@@ -179,3 +179,8 @@ def run(ctx: Ctx, rep: Report, tier: str):
     from rules.common import idless_delete_lookup_is_live
     rep.rule("C14.W14", "an id-less folder delete is matched to the live folder of that path (no stale look-up)", 1)
     section(rep, lambda: idless_delete_lookup_is_live(ctx, rep, "C14.W14"))
+    from rules.decisions import decision_table, table_sites
+    rep.rule("C14.DT", "decision table (rules/decisions.json) of event application: EventManager._process_event and its helpers, SyncState.update and the creation / deletion look-ups: for every function and every action shape (an impure call with the parameters it passes, a store to an "
+             "attribute or item, a delete, a returned constant, a yield, a raise) the set of states - over the function's guard atoms - in which the action is taken "
+             "equals the recorded one; compared as canonical decision diagrams, so any equivalent respelling of the guards is the same table", table_sites("C14"))
+    section(rep, lambda: decision_table(ctx, rep, "C14.DT", "C14"))
